@@ -85,8 +85,16 @@ func replayModel(e *Engine, rf *replayFile, v *violation, repo string) {
 	}
 	model := parseScalarModel(v.obl.Model)
 	sig := fn.Signature
-	if sig.Recv() != nil {
-		return // receivers need heap reconstruction: not replayed yet
+	scalar := sig.Recv() == nil
+	for _, p := range fn.Params {
+		b, isBasic := vc.resolve(p.Type()).Underlying().(*types.Basic)
+		if !isBasic || b.Info()&(types.IsInteger|types.IsBoolean) == 0 {
+			scalar = false
+		}
+	}
+	if !scalar {
+		heapReplay(e, rf, v, repo, fn)
+		return
 	}
 	var args []string
 	for _, p := range fn.Params {
